@@ -12,10 +12,10 @@ ENGINE = "E2"
 TECHNIQUE = "bounded exhaustive enumeration of listings x presentation edits (every single edit at every position, every pair of edit kinds) on the real parser/consumer; relational oracle: stream and result lists identical before/after"
 RULE = ("EVERY listing of length 1..L over a 6-instruction alphabet (0-3 operands, direct branch target, memory operand, "
         "operand-less) x EVERY single presentation edit at EVERY position: label line inserted/removed/renamed (names with "
-        "spaces, commas, parentheses), blank line, section header, elision line '\\t...', file-format header dropped, "
+        "spaces, commas, parentheses), blank line, section header, elision line '\\t...', file-format header dropped, DOS (CRLF) line endings, "
         "<sym+off> annotation added/changed/removed (incl. C++-style names with ', ' and '|'), '# comment' added (also on "
         "operand-less instructions), indentation 0..8, raw-byte column 1..7 bytes with different values, byte-continuation "
-        "line inserted; plus EVERY pair of edit kinds at the first two positions. Oracle (real code vs real code): the "
+        "line inserted; plus EVERY pair of edit kinds at the first two positions and EVERY (global edit, positional edit kind) pair; non-ASCII symbol names; and an environment family: the CLI run with LC_ALL=C / PYTHONUTF8=0 on listings whose labels and comments contain non-ASCII UTF-8 names must report what it reports for ASCII names. Oracle (real code vs real code): the "
         "instruction stream and the all-matches result lists of 8 fixed rules are identical for the edited and the "
         "canonical presentation, also under a rule with valid_addr_range and a full-match flag (which installs the optional instruction observer). Non-trivial = every edited listing (each differs textually from the canonical one).")
 ASSUMPTIONS = ["presentation edits keep objdump's line syntax (TAB-separated address / bytes / text); arbitrary text is C08's subject"]
@@ -31,9 +31,9 @@ RULES = [["mov"], [{"mov": ["rax"]}], ["call"], [{"call": ["401030"]}], ["ret"],
 
 CONF2 = {"valid_addr_range": {"min": "401000", "max": "401fff"}, "mnemonics-full-match": True}
 HEADER = ["", "a.out:     file format elf64-x86-64", "", "", "Disassembly of section .text:", ""]
-LABELS = ["f", "main", "foo(int, char)", "a|b", "x::y", "_Z3fooi.cold"]
+LABELS = ["f", "main", "foo(int, char)", "a|b", "x::y", "_Z3fooi.cold", "gr\u00f6\u00dfe", "f\u00b71"]
 ANNOTS = ["f", "f+0x10", "foo(int, char)+0x4", "a|b::c,d", "main-0x8"]
-COMMENTS = ["404010 <x+0x8>", "x", "a,b|c::d", "0x10"]
+COMMENTS = ["404010 <x+0x8>", "x", "a,b|c::d", "0x10", "404010 <gr\u00f6\u00dfe+0x8>"]
 
 
 def bounds(tier):
@@ -49,7 +49,13 @@ class Pres:
         self.line = [dict(indent=2, nbytes=3, annot=None, comment=None, byteseed=0) for _ in range(n)]
         self.before = [[] for _ in range(n + 1)]   # extra raw lines inserted before instruction i (i==n: at the end)
 
+    crlf = False
+
     def render(self, insts):
+        text = self._render(insts)
+        return text.replace("\n", "\r\n") if self.crlf else text
+
+    def _render(self, insts):
         out = list(HEADER) if self.header else []
         if self.label0 is not None and insts:
             out.append(f"{int(insts[0][0], 16):016x} <{self.label0}>:")
@@ -96,17 +102,55 @@ def edits_at(i, inst):
 def global_edits():
     return [("noheader", lambda p: setattr(p, "header", False)), ("nolabel", lambda p: setattr(p, "label0", None)),
             ("label0:main", lambda p: setattr(p, "label0", "foo(int, char)")),
+            ("crlf", lambda p: setattr(p, "crlf", True)),
             ("tail-blank", lambda p: p.before[-1].extend(["", ""])), ("tail-elision", lambda p: p.before[-1].append("\t..."))]
 
 
 def shards(tier):
-    return e1.std_shards(tier, 32, 128)
+    return e1.std_shards(tier, 32, 128) + [{"kind": "env"}]
+
+
+def run_env(h, res, known):
+    """The same instructions with ASCII and with non-ASCII symbol names, through the CLI under a C locale."""
+    import os
+    import re
+    import subprocess
+    import sys
+    import yaml
+    from mc.common import REPO
+    insts = [(ADDRS[0], "mov", ["%rax", "%rbx"]), (ADDRS[1], "call", ["401030"]), (ADDRS[2], "ret", [])]
+    rule = h.write("env_rule.yaml", yaml.safe_dump(make_rule_doc(["call", "ret"]), sort_keys=False))
+    cwd = h.path("envcwd")
+    os.makedirs(cwd, exist_ok=True)
+    outs = {}
+    for variant, (label, annot, comment) in {"ascii": ("main", "f+0x10", "404010 <x+0x8>"),
+                                              "utf8": ("gr\u00f6\u00dfe", "f\u00b71+0x10", "404010 <gr\u00f6\u00dfe+0x8>")}.items():
+        p = Pres(3)
+        p.label0 = label
+        p.line[1].update(annot=annot)
+        p.line[0].update(comment=comment)
+        lp = h.write(f"env_{variant}.s", p.render(insts).encode("utf-8"))
+        for envname, extra in {"utf8env": {"PYTHONUTF8": "1"}, "c_locale": {"LC_ALL": "C", "LANG": "C", "PYTHONUTF8": "0"}}.items():
+            env = {k: v for k, v in os.environ.items() if k not in ("LC_ALL", "LANG", "PYTHONUTF8", "PYTHONIOENCODING", "LC_CTYPE")}
+            env.update(extra)
+            env["PYTHONPATH"] = os.path.join(REPO, "src")
+            r = subprocess.run([sys.executable, "-m", "jasm.main", "-p", rule, "-s", lp, "--all-matches"], capture_output=True, cwd=cwd, env=env)
+            text = (r.stdout + r.stderr).decode("utf-8", "replace")
+            outs[(variant, envname)] = (r.returncode, re.findall(r"Matched address: (\S+)", text), "RESULT: Pattern found" in text)
+            res.evaluations += 1
+            res.nontrivial += 1
+    base = outs[("ascii", "utf8env")]
+    for k, v in outs.items():
+        if v != base:
+            res.fail({"clause": "env", "family": "env", "edits": list(k), "expected": list(base), "observed": list(v), "size": 1}, known)
 
 
 _MOPS = {}
 
 
 def run_shard(shard, tier, h, res, known):
+    if shard.get("kind") == "env":
+        return run_env(h, res, known)
     L = bounds(tier)["L_listing_len"]
     listings = [idx for n in range(1, L + 1) for idx in itertools.product(range(len(ALPHA)), repeat=n)]
     mops = [h.mop(make_rule_doc(r)) for r in RULES]
@@ -132,6 +176,14 @@ def run_shard(shard, tier, h, res, known):
             for (n0, f0) in kinds0.values():
                 for (n1, f1) in kinds1.values():
                     cases.append(((n0 + "@0", n1 + "@1"), [f0, f1]))
+        # every global edit combined with every edit kind at position 1 (or 0 for one-instruction listings)
+        pos = 1 if len(insts) >= 2 else 0
+        kinds_p = {}
+        for n, f in edits_at(pos, insts[pos]):
+            kinds_p.setdefault(n.split(":")[0].rstrip("0123456789"), (n, f))
+        for gname, gfn in global_edits():
+            for (n1, f1) in kinds_p.values():
+                cases.append(((gname, f"{n1}@{pos}"), [gfn, f1]))
         texts = []
         for names, fns in cases:
             p = Pres(len(insts))
@@ -149,7 +201,7 @@ def run_shard(shard, tier, h, res, known):
         base_stream = h.match(mops[0], bp, ret="stream")
         base_res = [h.match(m, bp) for m in mops]
         for names, text in texts:
-            ep = h.write("edit.s", text)
+            ep = h.write("edit.s", text.encode() if "\r" in text else text)
             res.evaluations += 1
             res.nontrivial += 1
             try:
@@ -170,7 +222,7 @@ def run_shard(shard, tier, h, res, known):
         base_stream2 = h.match(mop_cfg, bp, ret="stream")
         base_res2 = h.match(mop_cfg, bp)
         for names, text in texts:
-            ep = h.write("edit.s", text)
+            ep = h.write("edit.s", text.encode() if "\r" in text else text)
             res.evaluations += 1
             try:
                 s2 = h.match(mop_cfg, ep, ret="stream")
@@ -201,7 +253,12 @@ def controls(h):
 
 
 def replay(case, h):
-    a, b = h.write("a.s", case["base_text"]), h.write("b.s", case["text"])
+    if case.get("family") == "env":
+        r = type("R", (), {"evaluations": 0, "nontrivial": 0, "fails": []})()
+        r.fail = lambda c, k: r.fails.append(c)
+        run_env(h, r, set())
+        return bool(r.fails), str(r.fails)[:300]
+    a, b = h.write("a.s", case["base_text"]), h.write("b.s", case["text"].encode() if "\r" in case["text"] else case["text"])
     mops = [h.mop(make_rule_doc(r)) for r in RULES]
     try:
         if h.match(mops[0], a, ret="stream") != h.match(mops[0], b, ret="stream"):
